@@ -21,7 +21,7 @@ SPLIT_TWO = PARAM >= 6   # PARAM 8 = shape 2 with two tag values (PARAM 2: one v
 
 @obligation(funcs=["storage.kv.planner", "storage.kv.execute_one_plan", "storage.kv.matcher", "storage.kv.Index.scanner",
                    "storage.kv.MultiIndex.scanner", "storage.kv.MultiIndex.finalize", "storage.kv.compile_match_from_query"],
-            params=(0, 1, 2, 3, 4, 5, 8), timeout=(400, 1800),
+            params=(0, 1, 2, 3, 4, 5, 8), timeout=(500, 1800),
             bounds="store of 2 events (author by bool, kind from {1,2}, created_at symbolic 1..200, <=2 tags from {t:a, t:ab, "
                    "t:b}); filter shape by PARAM: 0 kinds(1-2 values), 1 authors, 2 #t (1-2 values, one a prefix of another), "
                    "3 kinds+#t (chained multi-index), 4 authors+kinds (composite index), 5 ids; since/until None or symbolic; "
